@@ -278,6 +278,55 @@ func init() {
 		})
 		return nil
 	})
+	// vCallMethod(recv, name, args...) calls the (possibly unexported) method by name and returns its first result (nil
+	// when it has none): harnesses stay compilable when the signature of a private function they use changes
+	regHarness("vCallMethod", func(m *Machine, fr *frame, a []Value) Value {
+		recv := a[0].(Iface)
+		name := m.argStr(a[1], "vCallMethod")
+		var pkg *types.Package
+		if fr.caller != nil && fr.caller.fn.Pkg != nil {
+			pkg = fr.caller.fn.Pkg.Pkg
+		}
+		fn := m.prog.LookupMethod(recv.T, pkg, name)
+		if fn == nil {
+			panic(unsupported{"vCallMethod: no method " + name + " on " + recv.T.String()})
+		}
+		args := []Value{recv.V}
+		if a[2] != nil {
+			for i, x := range a[2].([]Value) {
+				v := x.(Iface).V
+				// an interface-typed parameter keeps the interface value
+				if i+1 < len(fn.Params) {
+					if _, isIface := fn.Params[i+1].Type().Underlying().(*types.Interface); isIface {
+						v = x
+					}
+				}
+				args = append(args, v)
+			}
+		}
+		if len(args) != len(fn.Params) {
+			panic(unsupported{"vCallMethod: " + name + " takes a different number of arguments"})
+		}
+		res := m.callSSA(fr, 0, fn, args, nil)
+		results := fn.Signature.Results()
+		switch results.Len() {
+		case 0:
+			return Iface{}
+		case 1:
+			if _, isIface := results.At(0).Type().Underlying().(*types.Interface); isIface {
+				if res == nil {
+					return Iface{}
+				}
+				return res
+			}
+			return Iface{T: results.At(0).Type(), V: res}
+		}
+		first := res.(Tuple)[0]
+		if _, isIface := results.At(0).Type().Underlying().(*types.Interface); isIface {
+			return first
+		}
+		return Iface{T: results.At(0).Type(), V: first}
+	})
 	regHarness("vWatchStore", func(m *Machine, fr *frame, a []Value) Value {
 		m.watches = append(m.watches, watch{field: a[0].(*Str).s, fn: a[1]})
 		return nil
